@@ -63,6 +63,7 @@ fn file_path(setup: &Setup, fi: usize) -> PathBuf {
 enum Class {
     Gap,
     ExpGap,
+    SynthGap,
     Src,
     Exp,
     Synth,
@@ -136,7 +137,7 @@ fn check_program(ctx: &mut Ctx, setup: &Setup, rng: &mut Rng) {
                         return;
                     }
                 }
-                Prov::Synth => {
+                Prov::Synth(_) => {
                     class[p] = Class::Synth;
                     ctx.count("synthesised_token_bytes", 1);
                     if got.is_some() {
@@ -175,6 +176,17 @@ fn check_program(ctx: &mut Ctx, setup: &Setup, rng: &mut Rng) {
                 }
                 Class::ExpGap => {}
                 _ => next_exp = false,
+            }
+        }
+    }
+    // white space between two tokens of one origin-less expansion (caller-supplied macro followed by its restored
+    // argument list) belongs to that synthesised segment
+    for w in otoks.windows(2).zip(exp.prov.windows(2)) {
+        if let ([a, b], [Prov::Synth(Some(x)), Prov::Synth(Some(y))]) = (w.0, w.1) {
+            if x == y {
+                for p in a.e..b.s {
+                    class[p] = Class::SynthGap;
+                }
             }
         }
     }
@@ -236,7 +248,9 @@ fn check_program(ctx: &mut Ctx, setup: &Setup, rng: &mut Rng) {
                 let exact = got.as_ref() == Some(&(paths[fi].clone(), q));
                 // bytes of macro bodies, defaults and actual arguments surface inside expansions, whose origin
                 // (the definition's file, checked per token above) is what the statement asks for
-                let ok = exact || ((class[p] == Class::Exp || class[p] == Class::ExpGap) && got.is_some());
+                let ok = exact
+                    || ((class[p] == Class::Exp || class[p] == Class::ExpGap) && got.is_some())
+                    || ((class[p] == Class::Synth || class[p] == Class::SynthGap) && got.is_none());
                 let _ = in_define;
                 if !ok {
                     let m = format!(
